@@ -34,6 +34,12 @@ CHECKS = {
         text="Each catalogue program states when each future must be done given the configured retry delays / poll intervals / timeouts (all shorter than the 2 s / 30 s fallback timers); every single pre-emption placement is executed, so a lost wake-up shows up as a completion at +2 s/+30 s/+interval or never. Cancelling the delegate/inner/input future behind the back of every layer type and combinator must leave the derived future done.",
         design_ref="DESIGN.md section 4 (C03)", note=ENGINE_NOTE),
 
+    "C06": dict(
+        category="exploration",
+        technique="history-invariant property testing: exhaustive single-pre-emption sweeps of cancel-vs-hand-over/completion/retry-instant programs + Hypothesis-drawn stacks, cancel times and tapes; oracle = order predicates over the totally ordered event history (cancel return vs callable start vs delegate submit vs cancel arriving at the innermost future)",
+        text="Stacks over a manual base with a recording tap below every layer (and combinator expressions over recording source futures) are cancelled from 1-3 threads at every life stage: queued, between retries, at the retry instant, during hand-over, running (callable blocked on a gate), being resolved. True => cancelled ever after and no invocation/delegate submit after the return; running => False and normal completion; retry => no delegate submit after any cancel() returned; the request reaches the innermost pending future except below f_nocancel.",
+        design_ref="DESIGN.md section 4 (C06)", note=ENGINE_NOTE),
+
     "C17": dict(
         category="exploration", engine="plain",
         technique="differential property-based testing: operator on f_proxy(f_return(v)) vs operator on v over an enumerated value pool and Hypothesis-drawn recursive values; virtual-clock cases for the timeout clause",
